@@ -41,9 +41,10 @@ func r1Values() []string {
 		`ech="b2xk" alpn="h3" ech="` + b64(0) + `"`,    // two entries, the LAST one is current for list 0: still two entries
 		`alpn="h2" key65400="x ech=y z" ech="b2xk"`,    // a quoted value with blanks, one of its words looks like an ech entry
 		`alpn="h2" ech`, // the key alone (an empty value in presentation format)
-		`alpn="h2" key65400="C:\\" ech="b2xk" port=8443`, // an escaped backslash right before the closing quote
-		"alpn=\"h2\"\tech=\"b2xk\"\tport=8443",           // tabs between the parameters (white space of the presentation format)
-		`alpn="h2" ech="` + nonCanonicalB64(0) + `"`,     // ANOTHER spelling of list 0 (non-zero trailing bits in the last character): not "equal to the base64 of the given list", hence rewritten
+		`alpn="h2" key65400="C:\\" ech="b2xk" port=8443`,       // an escaped backslash right before the closing quote
+		"alpn=\"h2\"\tech=\"b2xk\"\tport=8443",                 // tabs between the parameters (white space of the presentation format)
+		`alpn="h2" key65400="100%" key65401=%s%d%v ech="b2xk"`, // percent signs (a value is data, never a format)
+		`alpn="h2" ech="` + nonCanonicalB64(0) + `"`,           // ANOTHER spelling of list 0 (non-zero trailing bits in the last character): not "equal to the base64 of the given list", hence rewritten
 	}
 }
 
@@ -82,6 +83,9 @@ var targetPool = []target{
 	// index 8: r1's zone spelled with upper-case letters (the API matches zone names without regard to case and answers with
 	// the canonical spelling): the same record as index 0
 	{"Example.ORG", "example.org"},
+	// index 9: r1's name spelled with the final dot of a fully-qualified name. The API lists names without it and this package
+	// compares names as given: no record of that name (whatever one thinks of that, it must be so wherever the name occurs in a list)
+	{"example.org", "example.org."},
 }
 
 const basePool = 5
@@ -277,6 +281,9 @@ func run(r *ev.Run, sc scenario) {
 			r.Violation("config-list-modified", fmt.Sprintf("call%d: PublishECH changed the caller's config list", ci), sc)
 		}
 		after := api.Snapshot()
+		if om := api.OtherMembers(); len(om) > 0 {
+			r.Violation("record-members-outside-data-written", fmt.Sprintf("call%d: a PATCH carried members of the record other than \"data\" (the API overwrites what it is given: a TTL set by hand, the proxied flag, a comment): %v", ci, om), sc)
+		}
 		log := api.CallLog()
 		failed := ci == sc.FailCall && sc.FailAt < len(log) || sc.FailKind == "cancel-context" && ctx.Err() != nil
 		tag := fmt.Sprintf("call%d", ci)
@@ -565,6 +572,14 @@ func Run(r *ev.Run) {
 	}
 	// the zone named with another letter case, alone and next to the canonical spelling
 	for _, l := range [][]int{{8}, {8, 0}, {0, 8}, {8, 1}, {8, 2}} {
+		for c := 0; c < 2; c++ {
+			for _, v1 := range []int{1, 3} {
+				scs = append(scs, scenario{V1: v1, Calls: []call{{l, c}}, FailCall: -1}, scenario{V1: v1, Calls: []call{{l, c}, {l, 1 - c}}, FailCall: -1})
+			}
+		}
+	}
+	// the name spelled with a final dot, alone, repeated, and next to the plain spelling in both orders
+	for _, l := range [][]int{{9}, {9, 9}, {9, 0}, {0, 9}, {9, 0, 9}, {9, 1}} {
 		for c := 0; c < 2; c++ {
 			for _, v1 := range []int{1, 3} {
 				scs = append(scs, scenario{V1: v1, Calls: []call{{l, c}}, FailCall: -1}, scenario{V1: v1, Calls: []call{{l, c}, {l, 1 - c}}, FailCall: -1})
